@@ -100,6 +100,8 @@ var actionMenu = [][]string{
 	{"setvar:tx.neg=-3", "setvar:tx.s=+%{tx.neg}"},  // signed operand copied by a macro: s + (-3)
 	{"setvar:tx.neg=-3", "setvar:tx.s=-%{tx.neg}"},  // s - (-3)
 	{"setvar:tx.s=+%{tx.t}", "setvar:tx.s=-%{tx.t}", "setvar:tx.s=+1"},
+	{"setvar:tx.s=+1", "setvar:!tx.s", "setvar:tx.s=+3"}, // set, delete, set again: per matched value
+	{"setvar:tx.k=1", "setvar:!tx.k", "setvar:tx.k=2", "setvar:tx.s=+1"},
 }
 
 var targets = []string{"ARGS_GET", "ARGS_GET:a", "REQUEST_HEADERS:X-H"}
@@ -169,6 +171,7 @@ func conf(rules []ruleT) string {
 			fmt.Fprintf(&sb, "  SecRule %s \"@rx ^x\" \"%s\"\n", r.Link.Target, r.Link.Action)
 		}
 	}
+	sb.WriteString("SecRule TX \"@streq never-matches\" \"id:98,phase:2,pass,nolog\"\n")
 	sb.WriteString("SecRule TX:s \"@gt 2\" \"id:99,phase:2,log,deny,status:418\"\n")
 	return sb.String()
 }
